@@ -218,7 +218,8 @@ def h_save_load_roundtrip(eng):
     eng.input("variables_per_category", shapes)
     # the attribute that is an expression sits on a variable of one of the five metadata categories -- or on a DERIVATIVE variable
     # (alias detection makes der(x) the canonical variable of an algebraic v = der(x) and hands it v's min / max / nominal)
-    positions = [(k, i, a) for k in A.CATEGORIES + ["der_states"] for i in range(shapes.get(k, 0)) for a in ("max", "start")]
+    cats = A.CATEGORIES + ([] if getattr(eng, "roundtrip_without_derivative_attributes", False) else ["der_states"])
+    positions = [(k, i, a) for k in cats for i in range(shapes.get(k, 0)) for a in ("max", "start")]
     key, idx, attr = positions[eng.choice(len(positions))]
     kind = ["dependent", "independent", "constant"][eng.choice(3)]
     eng.input("mx_attribute", {"category": key, "variable": idx, "attribute": attr, "kind": kind})
